@@ -115,3 +115,124 @@ class FnCache:
 def sym_elem(G, name):
     p = ca.SX.sym(name, G.n_param)
     return p, G.elem(p)
+
+
+# --------------------------------------------------------------------------------------
+# prelude: what a program has typically done BEFORE the calls a check looks at
+# --------------------------------------------------------------------------------------
+def prelude(run, report=(), order="others_first"):
+    """Run at the very start of the Lie-group checks, before any function is built.  A user program rarely starts with a
+    dense symbolic element: it starts with G.identity() (a structurally EMPTY parameter vector), with elements filled
+    entry by entry, and possibly with another Euler group of its own.  State that such first uses leave behind
+    (a Function cached with the sparsity of the first argument, a table shared between Euler groups and keyed only by
+    the axis letters, ...) then corrupts the ordinary calls that follow, which the check sees.  The prelude's own
+    results are compared with plain numpy; disagreements are reported as violations only by the checks whose property
+    covers them (`report` holds the clause families: "identity", "matrix", "convert"), otherwise they are only counted.
+    order: "others_first" uses the user-built Euler groups before SO3EulerB321 (so that B321, which everything else
+    uses, is the one that inherits their state), "b321_first" the other way round (C07 runs it in a second process)."""
+    import cyecca.lie as L
+    from cyecca.lie.group_so3 import SO3EulerLieGroup, EulerType, Axis
+    tol = 1e-9
+    out = []
+
+    def rx(a): c, s = math.cos(a), math.sin(a); return np.array([[1, 0, 0], [0, c, -s], [0, s, c]])
+    def ry(a): c, s = math.cos(a), math.sin(a); return np.array([[c, 0, s], [0, 1, 0], [-s, 0, c]])
+    def rz(a): c, s = math.cos(a), math.sin(a); return np.array([[c, -s, 0], [s, c, 0], [0, 0, 1]])
+    ROT = {"x": rx, "y": ry, "z": rz}
+    tri = [0.3, -0.4, 0.5]
+
+    def num(x):
+        return np.array(ca.DM(ca.densify(x)))
+
+    def bad(fam, key, what, data):
+        out.append((fam, key, what, data))
+        if run is None:
+            return
+        if fam in report:
+            run.violation(f"prelude/{key}", what, data)
+        else:
+            run.count("prelude_disagreements_not_in_scope")
+
+    def tick():
+        if run is not None:
+            run.count("prelude_checks")
+
+    def part_identity():
+        groups = {"SO2": L.SO2, "SE2": L.SE2, "R3": L.R3, "SO3Quat": L.SO3Quat, "SO3Mrp": L.SO3Mrp, "SO3Dcm": L.SO3Dcm,
+                  "SO3EulerB321": L.SO3EulerB321, "SE3Quat": L.SE3Quat, "SE3Mrp": L.SE3Mrp, "SE23Quat": L.SE23Quat, "SE23Mrp": L.SE23Mrp}
+        for name, G in groups.items():
+            try:
+                E = G.identity()
+                M = num(E.to_Matrix()); tick()
+                if M.shape[0] != M.shape[1] or np.max(np.abs(M - np.eye(M.shape[0]))) > tol:
+                    bad("identity", f"{name}/identity/to_Matrix", "the matrix of G.identity() is not the identity matrix", {"group": name, "got": M.tolist()})
+                M2 = num((E * E).to_Matrix()); tick()
+                if np.max(np.abs(M2 - np.eye(M.shape[0]))) > tol:
+                    bad("identity", f"{name}/identity/product", "identity * identity is not the identity", {"group": name, "got": M2.tolist()})
+                Mi = num(E.inverse().to_Matrix()); tick()
+                if np.max(np.abs(Mi - np.eye(M.shape[0]))) > tol:
+                    bad("identity", f"{name}/identity/inverse", "identity^-1 is not the identity", {"group": name, "got": Mi.tolist()})
+            except NotImplementedError:
+                pass
+            except Exception as ex:     # noqa
+                bad("identity", f"{name}/identity/raises", f"{type(ex).__name__}: {ex}", {"group": name})
+        reps = {"quat": L.SO3Quat, "mrp": L.SO3Mrp, "dcm": L.SO3Dcm, "euler": L.SO3EulerB321}
+        meth = {"quat": "from_Quat", "mrp": "from_Mrp", "dcm": "from_Dcm", "euler": "from_Euler"}
+        for a, Ga in reps.items():
+            for b, Gb in reps.items():
+                if a == b:
+                    continue
+                try:
+                    M = num(getattr(Gb, meth[a])(Ga.identity()).to_Matrix()); tick()
+                    if np.max(np.abs(M - np.eye(3))) > tol:
+                        bad("convert", f"{a}->{b}/identity", "converting the identity element does not give the identity rotation", {"got": M.tolist()})
+                except Exception as ex:     # noqa
+                    bad("convert", f"{a}->{b}/identity/raises", f"{type(ex).__name__}: {ex}", {})
+
+    def part_sparse():
+        e = ca.SX(3, 1); e[1] = 0.3            # only the pitch entry is stored
+        try:
+            M = num(L.SO3EulerB321.elem(e).to_Matrix()); tick()
+            if np.max(np.abs(M - ry(0.3))) > tol:
+                bad("matrix", "euler/sparse_pitch_only/to_Matrix", "Euler element with only the pitch entry stored: matrix is not Ry(pitch)", {"got": M.tolist()})
+        except Exception as ex:     # noqa
+            bad("matrix", "euler/sparse_pitch_only/raises", f"{type(ex).__name__}: {ex}", {})
+
+    def part_other_euler():
+        for tname, et, body in (("space_fixed", EulerType.space_fixed, False), ("body_fixed", EulerType.body_fixed, True)):
+            for seq in ("zyx", "xyz", "zxz"):
+                if body and seq == "zyx":
+                    continue            # that is B321 itself
+                try:
+                    G = SO3EulerLieGroup(euler_type=et, sequence=[getattr(Axis, c) for c in seq])
+                    M = num(G.elem(ca.DM(tri)).to_Matrix()); tick()
+                    R = np.eye(3)
+                    for c, a in zip(seq, tri):
+                        R = R @ ROT[c](a) if body else ROT[c](a) @ R       # intrinsic: post-multiply; extrinsic: pre-multiply
+                    if np.max(np.abs(M - R)) > tol:
+                        bad("convert", f"euler:{tname}:{seq}/to_Matrix", "Euler-angle matrix of a user-built Euler group differs from the product of its axis rotations",
+                            {"angles": tri, "got": M.tolist(), "want": R.tolist()})
+                except Exception as ex:     # noqa
+                    bad("convert", f"euler:{tname}:{seq}/raises", f"{type(ex).__name__}: {ex}", {})
+
+    def part_b321():
+        try:
+            M = num(L.SO3EulerB321.elem(ca.DM(tri)).to_Matrix()); tick()
+            R = rz(tri[0]) @ ry(tri[1]) @ rx(tri[2])
+            if np.max(np.abs(M - R)) > tol:
+                bad("convert", "euler:B321/to_Matrix", "B321 matrix differs from Rz Ry Rx (after other Euler groups / sparse elements were used)", {"got": M.tolist(), "want": R.tolist()})
+        except Exception as ex:     # noqa
+            bad("convert", "euler:B321/raises", f"{type(ex).__name__}: {ex}", {})
+
+    if order == "others_first":
+        part_other_euler(); part_identity(); part_sparse(); part_b321()
+    else:
+        part_b321(); part_sparse(); part_identity(); part_other_euler(); part_b321()
+    return out
+
+
+if __name__ == "__main__":      # python -m harness.lie <order>  -> JSON list of disagreements (second-process prelude of C07)
+    import sys, json, io, contextlib
+    with contextlib.redirect_stdout(io.StringIO()):
+        res = prelude(None, order=sys.argv[1] if len(sys.argv) > 1 else "b321_first")
+    print(json.dumps([[f, k, w, d] for f, k, w, d in res]))
